@@ -245,7 +245,8 @@ REQUIRES(FRESH(h, sizeof(struct cstl_hash)) && h->bucket.at == NULL && h->bucket
 #elif defined(VF_G_set_capacity)
 REQUIRES(H_OBJ(h))
 #endif
-REQUIRES(sz >= 1)
+/* sizes in between need more than 64 GiB and are excluded (DESIGN section 8, item 5) */
+REQUIRES(sz >= 1 && (sz <= H_CAPMAX || sz > SIZE_MAX / H_NB))
 ASSIGNS(h->bucket.at, h->bucket.capacity)
 FREES(h->bucket.at)
 #if defined(VF_G_set_capacity_init) || defined(VF_G_resize_init)
@@ -253,14 +254,14 @@ ENSURES((h->bucket.at == NULL && h->bucket.capacity == 0) ||
         (h->bucket.capacity == sz && FRESH(h->bucket.at, sz * H_NB) &&
          (vf_u128)__CPROVER_OBJECT_SIZE(h->bucket.at) >= (vf_u128)sz * H_NB))
 #else
-REQUIRES(vf_w_g < h->bucket.capacity)
+REQUIRES(vf_w_g < h->bucket.capacity && H_BYTE(h->bucket.at[vf_w_g].cst) <= 1)
 /* failure: nothing changes and the old array stays allocated;
  * success: a separate live array of sz buckets whose first min(sz, old capacity) buckets are preserved */
 ENSURES((h->bucket.at == OLD(h->bucket.at) && h->bucket.capacity == OLD(h->bucket.capacity) &&
          !__CPROVER_was_freed(h->bucket.at)) ||
         (h->bucket.capacity == sz && FRESH(h->bucket.at, sz * H_NB) &&
          (vf_u128)__CPROVER_OBJECT_SIZE(h->bucket.at) >= (vf_u128)sz * H_NB &&
-         (vf_w_g >= sz || (h->bucket.at[vf_w_g].cst == OLD(h->bucket.at[vf_w_g].cst) &&
+         (vf_w_g >= sz || (H_BYTE(h->bucket.at[vf_w_g].cst) == OLD(H_BYTE(h->bucket.at[vf_w_g].cst)) &&
                            h->bucket.at[vf_w_g].n == OLD(h->bucket.at[vf_w_g].n)))))
 #endif
 ;
